@@ -50,15 +50,46 @@ pub fn run(ctx: &mut Ctx, _replay: Option<&str>) {
             _ => { m.insert("nbf".into(), json!(now + 120 + r.next() % (10 * Y))); ("future", false) }
         };
         // iat plays no part in the window: whatever the issuer claims about its own clock, exp and nbf decide
-        let iat_class = match r.below(8) {
+        let mut context = false;
+        let iat_class = match r.below(9) {
             0 => { m.remove("iat"); "absent" }
             1 => { m.insert("iat".into(), json!(now + 200 + r.next() % 400)); "future-minutes" }
             2 => { m.insert("iat".into(), json!(now + 3600 + r.next() % Y)); "future-far" }
             3 => { m.insert("iat".into(), json!(now - r.next() % (10 * Y))); "past" }
             4 => { m.insert("iat".into(), json!((now + 500) as f64 + 0.5)); "future-fraction" }
             5 => { m.insert("iat".into(), json!(*r.pick(&[0u64, 1, u32::MAX as u64, i64::MAX as u64, u64::MAX]))); "extreme" }
+            // the very same number as nbf / as exp
+            6 => match m.get("nbf").cloned() { Some(n) => { m.insert("iat".into(), n); "equal-to-nbf" } None => "as-generated" },
+            7 if r.chance(1, 2) => match m.get("exp").cloned() { Some(n) => { m.insert("iat".into(), n); "equal-to-exp" } None => "as-generated" },
             _ => "as-generated",
         };
+        // claims other specifications give a meaning to (credential type, status, identifiers ...), in clear in the signed payload:
+        // they have no bearing on the validity window
+        if r.chance(1, 3) {
+            for _ in 0..r.range(1, 3) {
+                let (k, v) = match r.below(10) {
+                    0 | 1 => ("vct", json!("https://credentials.example/identity_credential")),
+                    2 => ("status", json!({"status_list": {"idx": 7, "uri": "https://s.example/1"}})),
+                    3 => ("jti", json!("urn:uuid:3a2b")),
+                    4 => ("typ", json!("vc+sd-jwt")),
+                    5 => ("client_id", json!("x")),
+                    6 => ("nonce", json!("n")),
+                    7 => ("vc", json!({"type": ["VerifiableCredential"]})),
+                    8 => ("ttl", json!(1000000)),
+                    _ => ("validUntil", json!("2099-01-01T00:00:00Z")),
+                };
+                m.insert(k.into(), v);
+            }
+            context = true;
+        }
+        if context {
+            // keep them in clear: no hiding at top level
+            if !matches!(f.issue.strategy, Strategy::None) {
+                f.issue.strategy = if r.chance(1, 2) { Strategy::None } else { Strategy::Custom(vec![]) };
+            }
+            f.sel = Default::default();
+            ctx.count("context_claims_in_clear");
+        }
         ctx.count(&format!("iat.{}", iat_class));
         ctx.count(&format!("exp.{}", exp_class));
         ctx.count(&format!("nbf.{}", nbf_class));
